@@ -4,6 +4,7 @@ import (
 	"bytes"
 
 	cmn "github.com/kardiachain/go-kardia/lib/common"
+	"github.com/kardiachain/go-kardia/lib/merkle"
 	kproto "github.com/kardiachain/go-kardia/proto/kardiachain/types"
 )
 
@@ -131,4 +132,78 @@ func VerifC13_S2(v *VerifV) {
 	v.Assert(g.ConsensusHash == h.ConsensusHash, "C13.header.consensushash-not-bound")
 	v.Assert(g.AppHash == h.AppHash, "C13.header.apphash-not-bound")
 	v.Assert(g.EvidenceHash == h.EvidenceHash, "C13.header.evidencehash-not-bound")
+}
+
+// VerifC13_S7: headers, commits, block ids and parts survive their proto conversion (the form in
+// which they are sent and stored) unchanged, field by field, for symbolic field values; a
+// conversion that drops or crosses a field is a different block for the receiver.
+func VerifC13_S7(v *VerifV) {
+	verifV = v
+	hb := func(tag string) cmn.Hash {
+		var h cmn.Hash
+		h[0], h[31] = v.U8(tag), v.U8(tag)
+		return h
+	}
+	id := BlockID{Hash: hb("id-hash"), PartsHeader: PartSetHeader{Total: v.U32("id-total"), Hash: hb("id-parts")}}
+	switch v.Choice("object", 3) {
+	case 0:
+		h := Header{Height: v.U64("height"), Time: verifTS, NumTxs: v.U64("numtxs"), GasLimit: v.U64("gaslimit"), LastBlockID: id,
+			ProposerAddress: cmn.Address{v.U8("proposer")}, LastCommitHash: hb("lch"), TxHash: hb("txh"), ValidatorsHash: hb("vh"),
+			NextValidatorsHash: hb("nvh"), ConsensusHash: hb("ch"), AppHash: hb("ah"), EvidenceHash: hb("eh")}
+		if h.ValidateBasic() != nil {
+			return
+		}
+		g, err := HeaderFromProto(h.ToProto())
+		v.Assert(err == nil, "C13.codec.valid-header-rejected-after-conversion")
+		if err != nil {
+			return
+		}
+		v.Assert(g.Height == h.Height && g.Time.Equal(h.Time) && g.NumTxs == h.NumTxs && g.GasLimit == h.GasLimit, "C13.codec.header-field-changed")
+		v.Assert(g.LastBlockID.Equal(h.LastBlockID) && g.ProposerAddress == h.ProposerAddress, "C13.codec.header-field-changed")
+		v.Assert(g.LastCommitHash == h.LastCommitHash && g.TxHash == h.TxHash && g.ValidatorsHash == h.ValidatorsHash, "C13.codec.header-field-changed")
+		v.Assert(g.NextValidatorsHash == h.NextValidatorsHash && g.ConsensusHash == h.ConsensusHash && g.AppHash == h.AppHash && g.EvidenceHash == h.EvidenceHash, "C13.codec.header-field-changed")
+		v.Cover("header")
+	case 1:
+		flag := []BlockIDFlag{BlockIDFlagAbsent, BlockIDFlagCommit, BlockIDFlagNil}[v.Choice("flag", 3)]
+		cs := CommitSig{BlockIDFlag: flag}
+		if flag != BlockIDFlagAbsent {
+			cs.ValidatorAddress, cs.Timestamp, cs.Signature = cmn.Address{v.U8("val")}, verifTS, []byte{v.U8("sig"), 2}
+		}
+		c := NewCommit(v.U64("height"), v.U32("round"), id, []CommitSig{cs, NewCommitSigAbsent()})
+		if c.ValidateBasic() != nil {
+			return
+		}
+		g, err := CommitFromProto(c.ToProto())
+		v.Assert(err == nil && g != nil, "C13.codec.valid-commit-rejected-after-conversion")
+		if err != nil || g == nil {
+			return
+		}
+		v.Assert(g.Height == c.Height && g.Round == c.Round && g.BlockID.Equal(c.BlockID) && len(g.Signatures) == 2, "C13.codec.commit-field-changed")
+		if len(g.Signatures) == 2 {
+			a, b := g.Signatures[0], c.Signatures[0]
+			v.Assert(a.BlockIDFlag == b.BlockIDFlag && a.ValidatorAddress == b.ValidatorAddress && a.Timestamp.Equal(b.Timestamp) && string(a.Signature) == string(b.Signature), "C13.codec.commit-signature-changed")
+			v.Assert(g.Signatures[1].Absent(), "C13.codec.commit-signature-changed")
+		}
+		v.Cover("commit")
+	case 2:
+		p := &Part{Index: v.U32("index"), Bytes: v.Bytes("bytes", v.Len("len", 0, 3)),
+			Proof: merkle.SimpleProof{Total: v.U64("ptotal"), Index: v.U64("pindex"), LeafHash: hb("leaf").Bytes(), Aunts: [][]byte{hb("aunt").Bytes()}}}
+		pb, err := p.ToProto()
+		if err != nil || p.ValidateBasic() != nil {
+			return
+		}
+		g, err := PartFromProto(pb)
+		v.Assert(err == nil && g != nil, "C13.codec.valid-part-rejected-after-conversion")
+		if err != nil || g == nil {
+			return
+		}
+		v.Assert(g.Index == p.Index && len(g.Bytes) == len(p.Bytes) && g.Proof.Total == p.Proof.Total && g.Proof.Index == p.Proof.Index, "C13.codec.part-field-changed")
+		v.Assert(bytes.Equal(g.Proof.LeafHash, p.Proof.LeafHash) && len(g.Proof.Aunts) == 1 && bytes.Equal(g.Proof.Aunts[0], p.Proof.Aunts[0]), "C13.codec.part-proof-changed")
+		if len(g.Bytes) == len(p.Bytes) {
+			for i := range p.Bytes {
+				v.Assert(g.Bytes[i] == p.Bytes[i], "C13.codec.part-field-changed")
+			}
+		}
+		v.Cover("part")
+	}
 }
